@@ -29,6 +29,12 @@ func genC20(t *rapid.T) Scenario {
 		sc.Ops = append(sc.Ops, HubOp{K: k, X: x, Y: y, WaitMs: rapid.SampledFrom([]int{0, 0, 0, 1, 5, 30, 200, 600}).Draw(t, "wait"),
 			Conc: rapid.IntRange(0, 3).Draw(t, "conc") != 0, Spell: rapid.SampledFrom([]int{0, 0, 0, 1, 2}).Draw(t, "spell")})
 	}
+	// stretched interleaving points: slow logger lines, a slow link
+	sc.SlowLog = genSlowLog(t, sc.N)
+	if ms := rapid.SampledFrom([]int{0, 0, 150, 500}).Draw(t, "slowLink"); ms > 0 {
+		x := rapid.IntRange(0, 2).Draw(t, "slowFrom")
+		sc.Ops = append([]HubOp{{K: "slow", X: x, Y: (x + 1) % 3, Ms: ms}}, sc.Ops...)
+	}
 	return sc
 }
 
